@@ -94,6 +94,29 @@ def run(R):
     ties.t8(R, "T8-driver", cs[:150 if quick else 2500])
     import interactive
     ties.t8(R, "T8-driver-interactive", interactive.cases())
+    # a removal patch whose target holds more than the patch removes (theorem C04_run_delete_leftover): every hunk applies, yet the file
+    # must not be removed - it keeps exactly what is left - and the run must not claim success (exit 1, "Not deleting"), with no reject.
+    # Oracle on the program, and model = program on the same runs (also with -b, --dry-run, -E off, where the theorem says nothing).
+    old = [(b"gone%d" % i, "L") for i in range(1, 5)]
+    left = []
+    for where, extra in (("after", [(b"left over", "L")]), ("after-2", [(b"left", "L"), (b"over", "L")]), ("after-unterminated", [(b"left over", "N")])):
+        for opts in ([], [b"-b"], [b"--dry-run"], [b"-f"], [b"-p0"]):
+            text = emit.unified_text(gen.make_hunks(old, [], 3), b"f", b"/dev/null", b"", b"")
+            tree = box.Tree({b"f": ("f", gen.render(old + extra, "keep"), 0o640), b"other": ("f", b"kept\n", 0o600), b"p.diff": ("f", text, 0o644)})
+            left.append((where, opts, extra, dict(tree=tree, argv=opts + [b"-i", b"p.diff"])))
+    res = drv.run_many([dict(cut=R.cut, **c) for _, _, _, c in left])
+    for (where, opts, extra, c), r in zip(left, res):
+        R.evaluations += 1; R.nontrivial.add(("leftover", where, tuple(opts)))
+        dry = b"--dry-run" in opts
+        want = c["tree"][b"f"][1] if dry else gen.render(extra, "keep")
+        got = r.after.get(b"f")
+        rej = [q for q in r.after if q.endswith(b".rej")]
+        if r.exit != 1 or got is None or got[0] != "f" or got[1] != want or rej:
+            R.oracle_fail(f"removal patch on a file with more content than it removes ({where}, {b' '.join(opts).decode() or 'no options'}): exit {r.exit}, "
+                          + ("file removed" if got is None else "file holds " + repr(got[1][:40])) + (f", reject {rej}" if rej else "") + " - want exit 1 and exactly the left-over lines, no reject",
+                          {"argv": [x.decode() for x in c["argv"]], "exit": r.exit, "stdout": r.stdout.decode("latin1")[-300:], "stderr": r.stderr.decode("latin1")[-200:],
+                           "file_before": c["tree"][b"f"][1].hex(), "patch_hex": c["tree"][b"p.diff"][1].hex()})
+    ties.t8(R, "T8-removal-leftover", [c for _, _, _, c in left])
     # failed hunks must end up in the reject file or the run must say it could not save them: a reject file on a full device
     if os.path.exists("/dev/full"):
         a = [(b"one", "L"), (b"two", "L"), (b"three", "L")]
